@@ -69,7 +69,7 @@ def make_listener_class(mask, events):
 
 def contract_case(task):
     N, mask, comp, extra = task["N"], task["mask"], tuple(task["comp"]), task["extra"]
-    cfg = dict(N=N, box=("B0", "B1", "B2")[N - 1], env=("abs13", "lin", "sin")[N - 1])
+    cfg = dict(N=N, box=("B0", "B1", "B2", "D")[N - 1], env=("abs13", "lin", "sin", "quad")[N - 1])
     lo, up = box(cfg["box"], N)
     f = make_env(cfg["env"], cfg)
     events = []
@@ -355,10 +355,10 @@ def run(ctx):
     res = Result()
     th = ctx.thorough
     tasks = []
-    nmax = 5 if th else 4
-    for N in (1, 2, 3):
+    nmax = 9 if th else 4
+    for N in (1, 2, 3, 4) if th else (1, 2, 3):
         for mask in range(16):
-            for n in range(0, nmax + 1):
+            for n in range(0, (nmax if N < 3 else min(nmax, 7 if N == 3 else 5)) + 1):
                 for comp0 in compositions(n):
                     for comp in with_zero_batches(comp0):
                         for extra in range(0, 4):
